@@ -698,6 +698,30 @@ def rule_locate(ctx, res):
                    'string') + ('' if base_ok else '; join base is not the '
                                 'requiring file\'s directory'),
                   f.module.loc(call))
+    # the load path is cut into entries BEFORE the require string is put in:
+    # nothing cart-controlled may take part in a split
+    from .. import norm as _norm
+    splits = 0
+    for (g, n) in _norm.region_nodes(ctx, f):
+        if isinstance(n, ast.Call) and isinstance(n.func, ast.Attribute) \
+                and n.func.attr in ('split', 'rsplit', 'partition',
+                                    'rpartition', 'splitlines'):
+            recv = _norm.subst_locals(g.node, n.func.value) \
+                if g is f else n.func.value
+            tainted = any(isinstance(x, ast.Name) and x.id == p_req
+                          for x in ast.walk(recv))
+            if g is not f:
+                continue
+            splits += 1
+            res.check(not tainted, 'R-C12-locate', qual,
+                      'the text cut into load path entries does not contain '
+                      'the require string',
+                      unparse(recv, 50),
+                      'the load path is split AFTER the require string was '
+                      'substituted into it (`{}`): a separator inside the '
+                      'require string starts a new candidate that never met '
+                      'the string filter'.format(unparse(recv, 70)),
+                      f.module.loc(n), semantic=True)
     # callers pass a load path that is not cart-controlled
     ev = model.func('pico8.build.build:_evaluate_require')
     for n in model.own_nodes(ev.node):
